@@ -23,6 +23,7 @@ type caseRec struct {
 	Include       []string `json:"include"`
 	Exclude       []string `json:"exclude"`
 	CustomOptions bool     `json:"customOptions"`
+	KnownExt      bool     `json:"knownExt"`
 	Conflict      bool     `json:"conflict"`
 	Survive       []string `json:"survive"`
 	Shells        []string `json:"shells"`
@@ -49,6 +50,7 @@ var fullName = map[string]string{
 	"OptMsg": "opts.OptMsg", "msg_opt": "opts.msg_opt", "field_opt": "opts.field_opt", "pkg": "pkg", "opts": "opts",
 	"WithOpt2": "pkg.WithOpt2", "UsesKind": "pkg.UsesKind", "Payload": "pkg.Payload", "Holder": "opts.Holder", "any_opt": "opts.any_opt", "WithAny": "pkg.WithAny",
 	"Far": "pkg.Svc.Far", "Remote": "pkg.Remote",
+	"ChainVal": "pkg.ChainVal", "ext_chain": "pkg.ext_chain", "ext_leaf": "pkg.ext_leaf",
 }
 
 var sources = map[string]string{
@@ -120,6 +122,21 @@ extend Ext {
 message ExtVal {
   // c:pkg.ExtVal.e
   optional string e = 1;
+  extensions 100 to 200;
+}
+extend ExtVal {
+  // c:pkg.ext_chain
+  optional ChainVal ext_chain = 100;
+}
+// c:pkg.ChainVal
+message ChainVal {
+  // c:pkg.ChainVal.cv
+  optional string cv = 1;
+  extensions 100 to 200;
+}
+extend ChainVal {
+  // c:pkg.ext_leaf
+  optional string ext_leaf = 100;
 }
 // c:pkg.WithOpt
 message WithOpt {
@@ -287,7 +304,10 @@ func names(short []string) []string {
 }
 
 func filterOpts(c caseRec, inPlace bool) []bufimageutil.ImageFilterOption {
-	opts := []bufimageutil.ImageFilterOption{bufimageutil.WithExcludeKnownExtensions(), bufimageutil.WithAllowIncludeOfImportedType()}
+	opts := []bufimageutil.ImageFilterOption{bufimageutil.WithAllowIncludeOfImportedType()}
+	if !c.KnownExt {
+		opts = append(opts, bufimageutil.WithExcludeKnownExtensions())
+	}
 	if len(c.Include) > 0 {
 		opts = append(opts, bufimageutil.WithIncludeTypes(names(c.Include)...))
 	}
@@ -366,7 +386,7 @@ func run(in []byte) (*reg.Result, error) {
 					} else if len(c.Exclude) == 0 {
 						kind = "include-only"
 					}
-					caseInfo := map[string]any{"include": names(c.Include), "exclude": names(c.Exclude), "custom_options": c.CustomOptions, "in_place": inPlace}
+					caseInfo := map[string]any{"include": names(c.Include), "exclude": names(c.Exclude), "custom_options": c.CustomOptions, "known_extensions": c.KnownExt, "in_place": inPlace}
 					sig := fmt.Sprintf("%s/include=%s/exclude=%s", kind, strings.Join(names(c.Include), ","), strings.Join(names(c.Exclude), ","))
 					out, err := bufimageutil.FilterImage(img, filterOpts(c, inPlace)...)
 					if c.Conflict {
@@ -416,6 +436,28 @@ func run(in []byte) (*reg.Result, error) {
 						}
 					}
 					sort.Strings(gotNames)
+					if c.KnownExt && !inPlace {
+						// retention follows chains of extensions: the result must not depend on the order in which the
+						// closure happens to visit the messages
+						for rep := 0; rep < 6; rep++ {
+							again, err := bufimageutil.FilterImage(base, filterOpts(c, false)...)
+							if err != nil {
+								res.Violate("nondeterministic/known-extensions/"+sig, caseInfo, "the same filter on the same image succeeded once and failed then: %v", err)
+								break
+							}
+							var againNames []string
+							for n, e := range collect(again) {
+								if e.kind != "field" {
+									againNames = append(againNames, n)
+								}
+							}
+							sort.Strings(againNames)
+							if strings.Join(againNames, ",") != strings.Join(gotNames, ",") {
+								res.Violate("nondeterministic/known-extensions/"+sig, caseInfo, "the same filter on the same image gave %v and then %v", gotNames, againNames)
+								break
+							}
+						}
+					}
 					want := names(c.Survive)
 					if strings.Join(gotNames, ",") != strings.Join(want, ",") {
 						esig := "elements/" + sig
